@@ -1,7 +1,8 @@
-(* KeyAddr.v — C16 from the path text: the bracket spellings $["k"] and $['k'] of ANY key k (every list of code
-   points, escaped by the JSON rules) are accepted by the grammar, build the one-step tree that names exactly k,
-   and a retrieval on an object holding a member k returns exactly that member. *)
-From JP Require Import Peg Grammar Text Tree Actions Json Eval WF Spec EvalInv1 EvalInv4 EvalTop EndToEnd Codec KeyParse.
+(* KeyAddr.v — C16 from the path text: the three spellings of ANY key k — $["k"], $['k'] (every list of code
+   points, escaped by the JSON rules) and $.k (k non-empty without control characters, every symbol
+   backslash-escaped) — are accepted by the grammar, build the one-step tree that names exactly k, and a retrieval
+   on an object holding a member k returns exactly that member; on an object without it, nothing. *)
+From JP Require Import Peg Grammar Text Tree Actions Json Eval WF Spec EvalInv1 EvalInv4 EvalTop EndToEnd Codec KeyDefs KeyParse.
 Open Scope list_scope.
 
 Section KeyAddr.
@@ -19,15 +20,38 @@ Section KeyAddr.
   Definition key_result (key : string) (v : value) : res :=
     if cfg_accessor cfg then RAcc true (Some [PKey key]) v else RVal v.
 
-  Lemma spec_key_node q k m :
-    spec_results ffun afun regex_match (key_node cfg q k) (VObj m) =
-    match lookup m (string_of_bytes (utf8 k)) with
-    | Some v => [key_result (string_of_bytes (utf8 k)) v]
-    | None => []
-    end.
+  Lemma spec_single key b m : accessor b = cfg_accessor cfg ->
+    spec_results ffun afun regex_match (Node (KSingle key) b ONone) (VObj m) =
+    match lookup m key with Some v => [key_result key v] | None => [] end.
   Proof.
-    unfold spec_results, key_node. cbn [sp snd fst]. destruct (lookup m (string_of_bytes (utf8 k))) as [v|]; [|reflexivity].
-    cbn [map wrap accessor]. unfold key_result. destruct (cfg_accessor cfg); reflexivity.
+    intros Hb. unfold spec_results. cbn [sp snd fst]. destruct (lookup m key) as [v|]; [|reflexivity].
+    cbn [map wrap]. unfold key_result. rewrite Hb. destruct (cfg_accessor cfg); reflexivity.
+  Qed.
+
+  (* any path text that parses to the single step naming `key` addresses exactly that member *)
+  Lemma single_step_present input key b m v st : parse input = ParseOk (Node (KSingle key) b ONone) ->
+    accessor b = cfg_accessor cfg -> small (VObj m) -> ok st -> lookup m key = Some v ->
+    fst (eval_run (Node (KSingle key) b ONone) (VObj m) st) = OOk [key_result key v].
+  Proof.
+    intros Hp Hb Hs Hok Hl.
+    pose proof (retrieve_end_to_end cfg parse_float regex_ok ffun afun regex_match ffun_small afun_small input (VObj m) st Hs Hok) as H.
+    rewrite Hp in H. rewrite (spec_single key b m Hb), Hl in H.
+    destruct (fst (eval_run (Node (KSingle key) b ONone) (VObj m) st)) as [rs|e|p].
+    - destruct H as [H _]. rewrite H. reflexivity.
+    - destruct H as [H _]. discriminate.
+    - contradiction.
+  Qed.
+  Lemma single_step_absent input key b m st : parse input = ParseOk (Node (KSingle key) b ONone) ->
+    accessor b = cfg_accessor cfg -> small (VObj m) -> ok st -> lookup m key = None ->
+    exists e, fst (eval_run (Node (KSingle key) b ONone) (VObj m) st) = OErr e.
+  Proof.
+    intros Hp Hb Hs Hok Hl.
+    pose proof (retrieve_end_to_end cfg parse_float regex_ok ffun afun regex_match ffun_small afun_small input (VObj m) st Hs Hok) as H.
+    rewrite Hp in H. rewrite (spec_single key b m Hb), Hl in H.
+    destruct (fst (eval_run (Node (KSingle key) b ONone) (VObj m) st)) as [rs|e|p].
+    - destruct H as [H1 [H2 _]]. contradiction (H2 H1).
+    - exists e. reflexivity.
+    - contradiction.
   Qed.
 
   Theorem key_addressable q k m v st : (q = 34%N \/ q = 39%N) -> small (VObj m) -> ok st ->
@@ -36,13 +60,7 @@ Section KeyAddr.
               fst (eval_run t (VObj m) st) = OOk [key_result (string_of_bytes (utf8 k)) v].
   Proof.
     intros Hq Hs Hok Hl. exists (key_node cfg q k). split; [apply parse_key_path; exact Hq|].
-    pose proof (retrieve_end_to_end cfg parse_float regex_ok ffun afun regex_match ffun_small afun_small (key_path q k) (VObj m) st Hs Hok) as H.
-    rewrite (parse_key_path cfg parse_float regex_ok q k Hq) in H.
-    rewrite spec_key_node, Hl in H.
-    destruct (fst (eval_run (key_node cfg q k) (VObj m) st)) as [rs|e|p].
-    - destruct H as [H _]. rewrite H. reflexivity.
-    - destruct H as [H _]. discriminate.
-    - contradiction.
+    exact (single_step_present (key_path q k) _ _ m v st (parse_key_path cfg parse_float regex_ok q k Hq) eq_refl Hs Hok Hl).
   Qed.
 
   (* and a key the object does not hold selects nothing: no other member answers to the spelling *)
@@ -51,12 +69,47 @@ Section KeyAddr.
     exists t e, parse (key_path q k) = ParseOk t /\ fst (eval_run t (VObj m) st) = OErr e.
   Proof.
     intros Hq Hs Hok Hl. exists (key_node cfg q k).
-    pose proof (retrieve_end_to_end cfg parse_float regex_ok ffun afun regex_match ffun_small afun_small (key_path q k) (VObj m) st Hs Hok) as H.
-    rewrite (parse_key_path cfg parse_float regex_ok q k Hq) in H.
-    rewrite spec_key_node, Hl in H.
-    destruct (fst (eval_run (key_node cfg q k) (VObj m) st)) as [rs|e|p].
-    - destruct H as [H1 [H2 _]]. contradiction (H2 H1).
-    - exists e. split; [apply parse_key_path; exact Hq|reflexivity].
-    - contradiction.
+    destruct (single_step_absent (key_path q k) _ _ m st (parse_key_path cfg parse_float regex_ok q k Hq) eq_refl Hs Hok Hl) as [e He].
+    exists e. split; [apply parse_key_path; exact Hq|exact He].
+  Qed.
+
+  (* the dot spelling, for non-empty keys without control characters *)
+  Theorem dot_addressable c k m v st : forallb dot_char (c :: k) = true -> small (VObj m) -> ok st ->
+    lookup m (string_of_bytes (utf8 (c :: k))) = Some v ->
+    exists t, parse (dot_path (c :: k)) = ParseOk t /\
+              fst (eval_run t (VObj m) st) = OOk [key_result (string_of_bytes (utf8 (c :: k))) v].
+  Proof.
+    intros Hk Hs Hok Hl. exists (dot_node cfg (c :: k)). split; [apply parse_dot_path; exact Hk|].
+    exact (single_step_present (dot_path (c :: k)) _ _ m v st (parse_dot_path cfg parse_float regex_ok c k Hk) eq_refl Hs Hok Hl).
+  Qed.
+  Theorem dot_absent c k m st : forallb dot_char (c :: k) = true -> small (VObj m) -> ok st ->
+    lookup m (string_of_bytes (utf8 (c :: k))) = None ->
+    exists t e, parse (dot_path (c :: k)) = ParseOk t /\ fst (eval_run t (VObj m) st) = OErr e.
+  Proof.
+    intros Hk Hs Hok Hl. exists (dot_node cfg (c :: k)).
+    destruct (single_step_absent (dot_path (c :: k)) _ _ m st (parse_dot_path cfg parse_float regex_ok c k Hk) eq_refl Hs Hok Hl) as [e He].
+    exists e. split; [apply parse_dot_path; exact Hk|exact He].
+  Qed.
+
+  (* the three spellings of one key return the same results on every object (C18: quote style, .name vs ['name']) *)
+  Theorem spellings_agree c k m st : forallb dot_char (c :: k) = true -> small (VObj m) -> ok st ->
+    exists t1 t2 t3, parse (key_path 34 (c :: k)) = ParseOk t1 /\ parse (key_path 39 (c :: k)) = ParseOk t2 /\
+                     parse (dot_path (c :: k)) = ParseOk t3 /\
+                     match fst (eval_run t1 (VObj m) st) with
+                     | OOk rs => fst (eval_run t2 (VObj m) st) = OOk rs /\ fst (eval_run t3 (VObj m) st) = OOk rs
+                     | OErr _ => (exists e, fst (eval_run t2 (VObj m) st) = OErr e) /\ (exists e, fst (eval_run t3 (VObj m) st) = OErr e)
+                     | OPanic _ => False
+                     end.
+  Proof.
+    intros Hk Hs Hok. exists (key_node cfg 34 (c :: k)), (key_node cfg 39 (c :: k)), (dot_node cfg (c :: k)).
+    pose proof (parse_key_path cfg parse_float regex_ok 34 (c :: k) (or_introl eq_refl)) as P1.
+    pose proof (parse_key_path cfg parse_float regex_ok 39 (c :: k) (or_intror eq_refl)) as P2.
+    pose proof (parse_dot_path cfg parse_float regex_ok c k Hk) as P3.
+    split; [exact P1|]. split; [exact P2|]. split; [exact P3|]. unfold key_node, dot_node in *.
+    destruct (lookup m (string_of_bytes (utf8 (c :: k)))) as [v|] eqn:El.
+    - rewrite (single_step_present _ _ _ m v st P1 eq_refl Hs Hok El).
+      split; [exact (single_step_present _ _ _ m v st P2 eq_refl Hs Hok El)|exact (single_step_present _ _ _ m v st P3 eq_refl Hs Hok El)].
+    - destruct (single_step_absent _ _ _ m st P1 eq_refl Hs Hok El) as [e1 E1]. rewrite E1.
+      split; [exact (single_step_absent _ _ _ m st P2 eq_refl Hs Hok El)|exact (single_step_absent _ _ _ m st P3 eq_refl Hs Hok El)].
   Qed.
 End KeyAddr.
